@@ -531,7 +531,9 @@ def rule_r4(ctx: Ctx) -> None:
                     if all(isinstance(p_, (ListSrc, FiltV)) or (isinstance(p_, SeqV)) for p_ in parts):
                         ok = True
                     else:
-                        ok = False
+                        # the list is something the affine engine does not relate to the offer (a table entry, a memo): for production choosers the
+                        # finite-model interpretation below decides; elsewhere it is a finding
+                        ok = None if meth == "choose_production_alternatives" else False
                         why = (f"'{norm(v.node)[:60]}' is not drawn from (a filtered copy of) the alternatives it was offered: a production that "
                                f"is not registered for the requested type can be returned")
                 elif o.kind == "return" and isinstance(v, (ListSrc, FiltV)):
@@ -553,6 +555,7 @@ def rule_r4(ctx: Ctx) -> None:
                 if member[0] is not None:
                     verdict, why, k = member[0], member[1], max(k, 1)
                     n += nm_
+                # (neither engine relates the returned value to the offer: undecided, not a finding)
             ctx.ob("C01.R4", f, f.node, f"{f.cls.name if f.cls else ''}.{meth} returns one of the offered alternatives", verdict if k else None,
                    why if verdict is not True else "", witness={"paths": k})
     ctx.floor("C01.R4", n, 7, "interpreted chooser paths")
